@@ -197,6 +197,6 @@ PROPS["C20"] = {
 
 # properties whose worlds run against a copy of hc instrumented with lock probes and yield points
 # (see sim/instrument); the yield points are active in a quarter of the workers
-for _p in ["C01", "C02", "C03", "C04", "C05", "C08", "C09", "C10", "C11", "C12", "C13"]:
+for _p in ["C01", "C02", "C03", "C04", "C05", "C08", "C09", "C10", "C11", "C12", "C13", "C20"]:
     PROPS[_p]["fine"] = True
     PROPS[_p]["assumptions"] = PROPS[_p]["assumptions"] + ["the workers run a copy of /repo's working tree into which go/ast inserted a lock probe before every Lock / RLock statement and a yield point before the statements of hc's functions (not inside loops, not in functions that take a lock themselves); in a quarter of the workers a per-run subset of the yield points are park points"]
